@@ -189,6 +189,20 @@ class Scenario:
                 self.write(l, "k1", content=first_k1, timeout_ms=4000)
                 self.write(l, "k2", timeout_ms=4000)
                 self.write(l, "k3", timeout_ms=4000)
+            elif self.kind == "long_catchup":
+                # one follower is away (frozen, then - second round - killed) while the others acknowledge a long run of
+                # writes: it gets them back in ONE replication batch (far more entries than an actor mailbox holds)
+                # and must end up serving what the others serve
+                for how in ("stop", "kill"):
+                    l = self.c.leader()
+                    f = [i for i in self.c.nodes if i != l][self.rng.randrange(2)]
+                    self.fault(f, how)
+                    via = [i for i in self.c.nodes if i != f]
+                    for r in range(28):
+                        self.write(via[r % 2], KEYS[r % 3])
+                    self.write(via[0], KEYS[0], delete=True)
+                    self.heal()
+                    self.quiesce_and_read()
             elif self.kind == "follower_echo":
                 # publishes through followers, republished unchanged, compaction, follower restarts
                 for r in range(3):
@@ -323,9 +337,9 @@ def run(tier):
 
     echo_leg(c, sc_dir, quick)
 
-    kinds = ["bootstrap_leader", "leader_change_unapplied", "stale_leader", "follower_echo"] + ["random"] * (4 if quick else 40)
+    kinds = ["bootstrap_leader", "leader_change_unapplied", "stale_leader", "follower_echo", "long_catchup"] + ["random"] * (4 if quick else 40)
     if not quick:
-        kinds += ["stale_leader", "follower_echo"] * 3
+        kinds += ["stale_leader", "follower_echo", "long_catchup"] * 3
     # snapshot threshold: 6 log entries (restarts go through snapshot + log) in the echo scenario and every second other one
     jobs = [(os.path.join(sc_dir, "s%d" % i), c.seed * 1000 + i, k, 6 if (i % 2 == 0 or k == "follower_echo") else 10000) for i, k in enumerate(kinds)]
 
